@@ -370,7 +370,7 @@ func init() {
 			en("c37thr", 6, 30, nil),
 			// drops in memory: same model as the on-disk C29 search
 			bfs("lsm", 4, 40, prm("oracle", "c29", "mode", "normal", "keyset", "drop", "keys", 4, "drops", true, "snapshots", false, "l0_tables", 1, "inmemory", true, "nofiles", true, "ops", "Sp1a Sp2a Sq Dp1a F C0 Yp1 Yp Yp1,q Yzz V"))},
-		[]Stage{bfs("lsm", 6, 600, prm("oracle", "c12", "keys", 2, "inmemory", true, "nofiles", true)), bfs("lsm", 6, 600, prm("oracle", "c12", "mode", "normal", "keys", 2, "inmemory", true, "nofiles", true, "ops", "Sa Sb Da Db F C0 C1 O X A")),
+		[]Stage{en("c37thr", 6, 60, nil), bfs("lsm", 6, 600, prm("oracle", "c12", "keys", 2, "inmemory", true, "nofiles", true)), bfs("lsm", 6, 600, prm("oracle", "c12", "mode", "normal", "keys", 2, "inmemory", true, "nofiles", true, "ops", "Sa Sb Da Db F C0 C1 O X A")),
 			bfs("lsm", 5, 600, prm("oracle", "c29", "mode", "normal", "keyset", "drop", "keys", 4, "drops", true, "snapshots", false, "l0_tables", 1, "inmemory", true, "nofiles", true, "ops", "Sp1a Sp1b Sp2a Sq Dp1a F C0 C1 Yp1 Yp Yp1,q Yp1,p2 Yzz V"))})
 	planTable["C33"] = lsmPlan("Normal-mode histories mixing expiring (TTL 5 s), non-expiring and deleted versions with flushes, compactions, value-log GC and virtual-clock advances (11 s): after every transition Get and forward/reverse iteration show an entry iff now < expiresAt (and, for every history of up to 3 (quick) / 5 (thorough) steps over {TTL set, set, delete, clock advance, flush, compaction}, so do a Stream run and a Backup + Load into a fresh database); an expired newest version hides older ones; a newer plain write is visible. Crash images of short histories with TTL entries (inline and value-log values): after recovery every entry still carries its user meta, and two virtual hours later every TTL entry is invisible while the rest of the commit prefix is unchanged.",
 		stateRule,
